@@ -68,6 +68,19 @@ def monitor(case, out):
                 return {"step": i, "why": "%s holds %s as left/unreachable without an expiry" % (ids[o], x), "sig": "no-expiry"}
             if not v["left"] and not v["unreach"] and v["expiry"] != 0:
                 return {"step": i, "why": "%s holds %s as live but with an expiry" % (ids[o], x), "sig": "stale-expiry"}
+        # --- "seen as left by every node that learns of it": an observer that has caught up with everything a departed node
+        # published knows that it left (observers that expired the node in between are the business of finding F3)
+        for xi, x in enumerate(ids):
+            own = views.get((xi, x))
+            if own is None or not own["left"]:
+                continue
+            for o in range(nn):
+                v = views.get((o, x))
+                if o == xi or v is None or (o, x) in expired_at:
+                    continue
+                if v["ver"] >= own["ver"] and not v["left"]:
+                    return {"step": i, "why": "%s has caught up with the departed node %s (version %d of %d) but does not consider it left"
+                                              % (ids[o], x, v["ver"], own["ver"]), "sig": "left-not-learned"}
         # --- liveness verdicts
         if k == "liveness":
             n = op["n"] % nn
@@ -151,7 +164,23 @@ def left_relearn_witness():
     return {"id": "corpus-left-relearn", "nodes": nodes, "ops": ops}
 
 
-CORPUS = [f2_witness(), left_relearn_witness()]
+def left_compact_witness(late_join=True):
+    """x declares itself left and then compacts its state (what a busy node's shutdown does: closing the upstreams leaves
+    a pile of tombstones); whoever catches up with x afterwards - through the join stream or datagram exchanges - must
+    still learn that it left"""
+    nodes = [{"id": H(x), "addr": H("10.0.0.%d:7000" % (i + 1))} for i, x in enumerate(["b", "c", "x"])]
+    D = {"op": "deliver", "i": 0, "max": 1400}
+    ops = [{"op": "upsert", "n": 2, "k": H("endpoint:e"), "v": H("1")}, {"op": "upsert", "n": 2, "k": H("endpoint:f"), "v": H("1")},
+           {"op": "join", "a": 2, "b": 0},
+           {"op": "delete", "n": 2, "k": H("endpoint:e")}, {"op": "delete", "n": 2, "k": H("endpoint:f")},
+           {"op": "leave", "n": 2}, {"op": "compact", "n": 2, "th": 1}]
+    if late_join:
+        ops += [{"op": "join", "a": 1, "b": 2}]
+    ops += [{"op": "send", "a": 0, "b": 2, "max": 1400}, D, D, D, D, {"op": "send", "a": 0, "b": 2, "max": 1400}, D, D, D, D]
+    return {"id": "corpus-left-compact" + ("-join" if late_join else ""), "nodes": nodes, "ops": ops}
+
+
+CORPUS = [f2_witness(), left_relearn_witness(), left_compact_witness(True), left_compact_witness(False)]
 
 
 def run(ctx):
